@@ -54,12 +54,14 @@ def check(repo, tier):
         return Finding('C18', rule, fn.where, what, msg, fn.file, fn.node.lineno)
     mods = {MOD, 'utils'}
     big = tier == 'thorough'
-    for variant, npairs, (ef, st), nmodes in itertools.product(('amuset_hosvd', 'amuset_hocur'), (1, 2, 3) if big else (1, 2), ((False, False), (True, False), (False, True), (True, True)),
-                                                            (1, 2, 3) if big else (2,)):
-        if variant == 'amuset_hocur' and (ef or st):
+    for variant, npairs, (ef, st), nmodes, thr in itertools.product(('amuset_hosvd', 'amuset_hocur'), (1, 2, 3) if big else (1, 2), ((False, False), (True, False), (False, True), (True, True)),
+                                                                 (1, 2, 3) if big else (2,), (1e-2, 0.0, 1e-5)):
+        if variant == 'amuset_hocur' and (ef or st or thr != 1e-2):
+            continue
+        if thr != 1e-2 and (npairs > 1 or ef or st or (not big and thr == 1e-5)):
             continue
         entry = f'{MOD}.{variant}'
-        scen = f'{variant}({npairs} index-set pair(s)' + (f', ef_tf={ef}, st_tf={st}' if variant == 'amuset_hosvd' else '') + (f', {nmodes} modes' if nmodes != 2 else '') + ')'
+        scen = f'{variant}({npairs} index-set pair(s)' + (f', ef_tf={ef}, st_tf={st}' if variant == 'amuset_hosvd' else '') + (f', {nmodes} modes' if nmodes != 2 else '') + (f', threshold={thr}' if thr != 1e-2 else '') + ')'
         intercept = {}
         holder = {}
         if variant == 'amuset_hocur':
@@ -82,14 +84,14 @@ def check(repo, tier):
             sc.inputs = (xs, ys)
             xa, ya = (xs, ys) if npairs > 1 else (xs[0], ys[0])
             if variant == 'amuset_hosvd':
-                return sc.call(entry, data, xa, ya, basis, threshold=1e-2, max_rank=sc.atom('rho', free=True), ef_tf=ef, st_tf=st)
+                return sc.call(entry, data, xa, ya, basis, threshold=thr, max_rank=sc.atom('rho', free=True), ef_tf=ef, st_tf=st)
             return sc.call(entry, data, xa, ya, basis, max_rank=20)
         for ch, sc, res, exc in l2.explore(repo, body, typed=False, intercept=intercept):
             if exc is not None:
                 run.oblige('D2', (entry, scen), False)
                 l2rules.raised_finding(run, 'C18', 'D2', repo, entry, scen, exc)
                 continue
-            l2rules.relative_cut_obligations(run, 'C18', 'D3', repo, sc, scen, mods)
+            l2rules.relative_cut_obligations(run, 'C18', 'D3', repo, sc, scen, mods, expected=({thr} if variant == 'amuset_hosvd' else None), only_fns={'truncated_svd', 'amuset_hosvd'})
             evs, ets = res[0], res[1]
             if npairs == 1:
                 evs, ets = [evs], [ets]
